@@ -23,6 +23,7 @@ Failed(o) ==
   IF o.obs.panic THEN {"panic"} ELSE IF o.obs.timeout THEN {"timeout"} ELSE
   LET v == o.vec  rs == o.obs.rows IN
   IF o.obs.err # "" THEN {"unexpected-error"} ELSE
+  IF CliBad(o.obs) THEN {"cli-wiring"} ELSE
   IF ~(\A k \in 1..Len(rs) : InRange(v, rs[k])) THEN {"rows"} ELSE
     (IF \A k \in 1..Len(rs) : RowOK(v, rs[k]) THEN {} ELSE {"distance-" \o v.measure})
     \cup (IF v.n = 0 /\ ~(\A k \in 1..Len(rs) : SnpsOK(v, rs[k])) THEN {"snp-list"} ELSE {})
